@@ -248,11 +248,13 @@ var allClasses = []*class{
 		{name: "ED25519", tmpl: signature.ED25519KeyTemplate},
 		{name: "ECDSA_P256_IEEE", tmpl: signature.ECDSAP256RawKeyTemplate},
 		{name: "ECDSA_P256_DER", tmpl: signature.ECDSAP256KeyTemplate, noCollide: true},
+		{name: "ECDSA_P384_DER", tmpl: signature.ECDSAP384SHA384KeyTemplate, noCollide: true},
 	}},
 	{name: "HYBRID", asym: true, pubMakes: true, pts: allPT, adapters: true, monitored: true, build: buildHYBRID, types: []keyType{
 		{name: "HPKE_X25519_AES128GCM", tmpl: hybrid.DHKEM_X25519_HKDF_SHA256_HKDF_SHA256_AES_128_GCM_Key_Template},
 		{name: "ECIES_P256_AES128GCM", tmpl: hybrid.ECIESHKDFAES128GCMKeyTemplate, noCollide: true},
 		{name: "HPKE_X25519_CHACHA", tmpl: hybrid.DHKEM_X25519_HKDF_SHA256_HKDF_SHA256_CHACHA20_POLY1305_Key_Template},
+		{name: "HPKE_P256_AES256GCM", tmpl: hybrid.DHKEM_P256_HKDF_SHA256_HKDF_SHA256_AES_256_GCM_Key_Template, noCollide: true},
 	}},
 	{name: "JWTMAC", pts: []string{"TINK", "RAW"}, monitored: true, build: buildJWTMAC, types: []keyType{
 		{name: "JWT_HS256", tmpl: jwt.HS256Template},
@@ -262,9 +264,14 @@ var allClasses = []*class{
 		{name: "JWT_ES256", tmpl: jwt.ES256Template},
 		{name: "JWT_ES384", tmpl: jwt.ES384Template},
 	}},
+	// (header lengths 24 / 40 bytes, two segment sizes, two constructions: a keyset mixes them in any order)
 	{name: "STREAM", pts: allPT, noPrefix: true, adapters: true, build: buildSTREAM, types: []keyType{
 		{name: "AES128_GCM_HKDF_4KB", tmpl: streamingaead.AES128GCMHKDF4KBKeyTemplate},
+		{name: "AES256_GCM_HKDF_4KB", tmpl: streamingaead.AES256GCMHKDF4KBKeyTemplate},
 		{name: "AES128_CTR_HMAC_SHA256_4KB", tmpl: streamingaead.AES128CTRHMACSHA256Segment4KBKeyTemplate},
+		{name: "AES256_CTR_HMAC_SHA256_4KB", tmpl: streamingaead.AES256CTRHMACSHA256Segment4KBKeyTemplate},
+		{name: "AES256_GCM_HKDF_1MB", tmpl: streamingaead.AES256GCMHKDF1MBKeyTemplate},
+		{name: "AES128_CTR_HMAC_SHA256_1MB", tmpl: streamingaead.AES128CTRHMACSHA256Segment1MBKeyTemplate},
 	}},
 	{name: "PRF", pts: []string{"RAW"}, noPrefix: true, adapters: true, monitored: true, types: []keyType{
 		{name: "HMAC_SHA256_PRF", tmpl: prf.HMACSHA256PRFKeyTemplate},
